@@ -336,6 +336,33 @@ def handleCli (toks : List String) : String :=
     | _ => none
   res.getD "bad-cli"
 
+/-- `nclayout <hex dimField> <nresults> <hex name>* <ndims> (<hex name> <size>)* <nvars> (<hex name> <hex dtype> <ndims> <hex dim>* <nattrs> (<hex k> <hex v>)* <ndata> <hex value>*)*`:
+the frame of the file `EEMSWrite` creates from that template -/
+def handleNcLayout (toks : List String) : String :=
+  let res : Option String := do
+    let (field, r) ← pHex toks
+    let (nres, r) ← pNat r
+    let (names, r) ← pMany pHex nres r
+    let (nd, r) ← pNat r
+    let (dims, r) ← pMany (fun ts => do let (n, r) ← pHex ts; let (k, r) ← pNat r; pure ((n, k), r)) nd r
+    let (nv, r) ← pNat r
+    let (vars, _) ← pMany (fun ts => do
+      let (n, r) ← pHex ts
+      let (dt, r) ← pHex r
+      let (k, r) ← pNat r
+      let (ds, r) ← pMany pHex k r
+      let (na, r) ← pNat r
+      let (attrs, r) ← pMany (fun ts => do let (a, r) ← pHex ts; let (b, r) ← pHex r; pure ((a, b), r)) na r
+      let (ndat, r) ← pNat r
+      let (dat, r) ← pMany pHex ndat r
+      pure (({ name := n, dtype := dt, dims := ds, attrs := attrs, data := dat } : NcVarD), r)) nv r
+    let showVar (v : NcVarD) : String :=
+      s!"{hex v.name}:{hex v.dtype}:{",".intercalate (v.dims.map hex)}:{",".intercalate (v.attrs.map fun (a, b) => hex a ++ "=" ++ hex b)}:{",".intercalate (v.data.map hex)}"
+    match ncLayout { dims := dims, vars := vars } field names with
+    | .error e => pure ("err " ++ e)
+    | .ok out => pure ("ok " ++ ",".intercalate (out.dims.map fun (n, k) => hex n ++ "=" ++ toString k) ++ " " ++ " ".intercalate (out.vars.map showVar))
+  res.getD "bad-nclayout"
+
 def handle (line : String) : String :=
   match (line.trimAscii.toString.splitOn " ").filter (· != "") with
   | "exec" :: rest => handleExec rest
@@ -348,6 +375,7 @@ def handle (line : String) : String :=
   | "registry" :: rest => handleRegistry rest
   | "ncread" :: rest => handleNcRead rest
   | "ncwrite" :: rest => handleNcWrite rest
+  | "nclayout" :: rest => handleNcLayout rest
   | "csvread" :: rest => handleCsvRead rest
   | "csvrows" :: rest => handleCsvRows rest
   | "csvwrite" :: rest => handleCsvWrite rest
